@@ -419,6 +419,58 @@ fn child_main(args: &BTreeMap<String, String>) -> ! {
     if let Some(w) = ex.writer.take() {
         let _ = w.wait_merging_threads();
     }
+    // (d) nothing is leaked for good: once the faults are over, a garbage collection (on a new
+    // writer) leaves exactly the files of the commit on storage - a file whose deletion failed
+    // earlier is still known and is collected now
+    if viol.is_empty() {
+        match ex.open_writer() {
+            Err(e) => viol.push(("after-faults:cannot-create-writer-for-gc".into(), json!(e))),
+            Ok(()) => {
+                let gc = ex.writer.as_ref().unwrap().garbage_collect_files().wait();
+                if let Err(e) = gc {
+                    viol.push(("after-faults:gc-failed".into(), json!(e.to_string())));
+                } else if let Some(Ok(refs)) = mon.raw_bytes("meta.json").map(|b| tvmon::mondir::meta_referenced_files(&b)) {
+                    let expected: BTreeSet<String> = refs.into_iter().map(|(f, _)| f).collect();
+                    let list_orphans = |mon: &MonDir| -> Vec<String> {
+                        mon.list_files()
+                            .into_iter()
+                            .filter(|f| !f.starts_with('.') && f != "meta.json" && !expected.contains(f))
+                            .collect()
+                    };
+                    let mut orphans = list_orphans(&mon);
+                    // a thread of an abandoned writer that is about to exit (merge thread, worker)
+                    // may still hold its segments in the index inventory for a moment: GC rightly
+                    // keeps their files. Bounded re-check; a permanent leak survives it.
+                    for wait_ms in [5u64, 20, 100, 500, 2000] {
+                        if orphans.is_empty() {
+                            break;
+                        }
+                        let _ = mon.wait_no_merge_in_flight(Duration::from_secs(5));
+                        std::thread::sleep(Duration::from_millis(wait_ms));
+                        let _ = ex.writer.as_ref().unwrap().garbage_collect_files().wait();
+                        orphans = list_orphans(&mon);
+                    }
+                    if !orphans.is_empty() {
+                        let kinds: BTreeSet<&str> = orphans.iter().map(|f| file_kind(f)).collect();
+                        let listed: BTreeSet<String> = mon
+                            .raw_bytes(".managed.json")
+                            .and_then(|b| serde_json::from_slice::<Vec<String>>(&b).ok())
+                            .unwrap_or_default()
+                            .into_iter()
+                            .collect();
+                        let unmanaged = orphans.iter().filter(|f| !listed.contains(*f)).count();
+                        viol.push((
+                            format!("after-faults:files-leaked-for-good:{}", kinds.into_iter().collect::<Vec<_>>().join("+")),
+                            json!({"orphans": orphans.iter().take(10).collect::<Vec<_>>(), "not_in_managed.json": unmanaged}),
+                        ));
+                    }
+                }
+                if let Some(w) = ex.writer.take() {
+                    let _ = w.wait_merging_threads();
+                }
+            }
+        }
+    }
     // (a) every commit that returned Ok was complete and durable at its return
     let log = mon.log();
     let commits = ex.model.commits.clone();
